@@ -8,6 +8,14 @@
 (* id is the driver's number of a live link object, 0 for an entry that       *)
 (* points to anything else (a closing link, a link the driver saw fail).      *)
 (* The predicates are Consistent of LinkRegistry, restated on observations.   *)
+(* Between the snapshots of a history whose routers run their router          *)
+(* subsystem (stage T-learned) the trace also names the steps that write      *)
+(* learned routes into the tables:                                            *)
+(*  ping kind("announce" | "disconnect") router                               *)
+(* - the router sent that ping over its live links and the receivers handled  *)
+(* it.  The property says nothing about such a step by itself (it is always   *)
+(* accepted); what it demands is demanded of the next snapshot: nexthops then *)
+(* also lists the next hops of the learned routes.                            *)
 (***************************************************************************)
 EXTENDS Integers, Sequences, FiniteSets, TLC, Json
 
@@ -27,7 +35,10 @@ RoutesMatch(e) == /\ Rng(e.routes) = {k.peer : k \in Rng(e.live)}
                   /\ Rng(e.nexthops) \subseteq {k.peer : k \in Rng(e.live)}
 Consistent(e) == Findable(e) /\ NoGhosts(e) /\ UniqueLabels(e) /\ RoutesMatch(e)
 
-TraceNext == l <= Len(Trace) /\ l' = l + 1 /\ Ev.ev = "snapshot" /\ Consistent(Ev) = TRUE
+RouterStep(e) == e.ev = "ping" /\ e.kind \in {"announce", "disconnect"}
+TraceNext == /\ l <= Len(Trace) /\ l' = l + 1
+             /\ \/ RouterStep(Ev)
+                \/ Ev.ev = "snapshot" /\ Consistent(Ev) = TRUE
 
 TraceAccepted ==
   LET dd == TLCGet("stats").diameter
